@@ -71,7 +71,7 @@ def run_with(bp, module, inputs, module_name=MODNAME):
 
 
 def python_job(prog: str, seed: int = 0) -> JobOut:
-    progs = {p.name: p for p in C.corpus("thorough" if prog.startswith("gen") else "quick", seed)}
+    progs = {p.name: p for p in C.corpus("thorough" if prog.startswith(("gen", "g2_")) else "quick", seed)}
     P = progs[prog]
     data = {n: C.default_data(n, shp, dt, P) for n, shp, dt, _ in P.inputs}
     try:
